@@ -149,7 +149,11 @@ def run_program(case, mutations_on):
                         r = b.subbuild('child%d' % i, make_fn(100 + i, ch), *copy.deepcopy(ch['args']), **copy.deepcopy(ch.get('kwargs', {})))
                         nested = copy.deepcopy(r)
                         maybe(i, 'nested_ret', r)
-                    ret = {'ret': copy.deepcopy(op['ret']), 'args': seen_args, 'extra': extra, 'nested': nested}
+                    if op.get('raw_ret'):
+                        # the function returns the bare value (e.g. a flat list of strings) and keeps a reference to it
+                        ret = copy.deepcopy(op['ret'])
+                    else:
+                        ret = {'ret': copy.deepcopy(op['ret']), 'args': seen_args, 'extra': extra, 'nested': nested}
                     kept[i] = ret
                     return ret
                 return fn
@@ -243,6 +247,12 @@ container = st.recursive(st.one_of(st.lists(leaf, min_size=1, max_size=3), st.di
                          max_leaves=4)
 
 
+# homogeneous flat values: the shapes a "this is already plain JSON" shortcut would single out
+flat = st.one_of(st.lists(st.sampled_from(['s', 't', 'u']), max_size=3), st.lists(st.integers(0, 3), max_size=3),
+                 st.dictionaries(st.sampled_from(['k', 'j']), st.sampled_from(['s', 't']), max_size=2),
+                 st.lists(st.lists(st.sampled_from(['s', 't']), max_size=2), min_size=1, max_size=2))
+
+
 @st.composite
 def cases(draw):
     ops = []
@@ -250,8 +260,13 @@ def cases(draw):
         op = {'kind': draw(st.sampled_from(['sub', 'sub', 'file'])),
               'args': draw(st.lists(st.one_of(container, leaf), max_size=2)),
               'kwargs': draw(st.dictionaries(st.sampled_from(['kw', 'opt']), st.one_of(container, container, leaf), max_size=2)),
-              'ret': draw(st.one_of(container, container, leaf)),
+              'ret': draw(st.one_of(container, container, leaf, flat)),
               'query': draw(st.sampled_from([None, None, 'list_dir', 'walk']))}
+        if draw(st.sampled_from(range(3))) == 0:
+            op['raw_ret'] = True
+            op['ret'] = draw(st.one_of(flat, flat, container))
+            if draw(st.booleans()):
+                op['args'] = [draw(flat)] + op['args'][:1]
         if draw(st.sampled_from(range(3))) == 0:
             op['child'] = {'kind': 'sub', 'args': draw(st.lists(container, max_size=1)), 'ret': draw(container), 'query': None,
                            'kwargs': draw(st.dictionaries(st.sampled_from(['kw']), container, max_size=1))}
